@@ -145,7 +145,7 @@ func getNodeFieldsBytesSize(node *insaneJSON.Node) int {
 		elemNodeVal := elemNode.AsFieldValue()
 		size += getNodeBytesSize(elemNodeVal)
 	}
-	size += len(fields) - 1 // commas between object fields
+	size += max(len(fields)-1, 0) // commas between object fields
 	return size
 }
 
@@ -160,7 +160,7 @@ func getNodeBytesSize(node *insaneJSON.Node) int {
 		for _, elemNode := range nodeArr {
 			size += getNodeBytesSize(elemNode)
 		}
-		size += len(nodeArr) - 1 + 2 // commas between elements and square brackets enclosing array
+		size += max(len(nodeArr)-1, 0) + 2 // commas between elements and square brackets enclosing array
 	case node.IsObject():
 		size += getNodeFieldsBytesSize(node) + 2 // curly brackets enclosing object
 	default:
